@@ -54,6 +54,26 @@ def delimited_jelly_hint(header: bytes) -> bool:
     )
 
 
+class _PrependedReader:
+    """Hand out ``head`` again before continuing to read from ``inp``."""
+
+    def __init__(self, head: bytes, inp: IO[bytes]) -> None:
+        self._head = head
+        self._inp = inp
+
+    def read(self, size: int = -1) -> bytes:
+        if not self._head:
+            return self._inp.read(size)
+        if size < 0:
+            data = self._head + self._inp.read()
+            self._head = b""
+            return data
+        data, self._head = self._head[:size], self._head[size:]
+        if len(data) < size:
+            data += self._inp.read(size - len(data))
+        return data
+
+
 def frame_iterator(inp: IO[bytes]) -> Generator[jelly.RdfStreamFrame]:
     while frame := parse_length_prefixed(jelly.RdfStreamFrame, inp):
         yield frame
@@ -82,8 +102,13 @@ def get_options_and_frames(
         # Input may not be seekable (e.g. a network stream) -- then we need to buffer
         # it to determine if it's delimited.
         # See also: https://github.com/Jelly-RDF/pyjelly/issues/298
+        # Note: peek(3) issues at most one raw read, which a pipe, a socket or a chunked
+        # HTTP body may answer with fewer than 3 bytes; read(3) keeps reading until it has
+        # 3 bytes (or EOF) and never asks for more than that.
         inp = io.BufferedReader(inp)  # type: ignore[arg-type, type-var, unused-ignore]
-        is_delimited = delimited_jelly_hint(inp.peek(3))
+        header = inp.read(3)
+        is_delimited = delimited_jelly_hint(header)
+        inp = _PrependedReader(header, inp)  # type: ignore[assignment]
     else:
         is_delimited = delimited_jelly_hint(bytes_read := inp.read(3))
         inp.seek(-len(bytes_read), os.SEEK_CUR)
